@@ -11,6 +11,7 @@ import Reamber.Lemmas.OsuHeader
 import Reamber.Lemmas.OsuDenote
 import Reamber.Lemmas.OsuDialect
 import Reamber.Lemmas.OsuWritten
+import Reamber.Lemmas.OsuReadFacts
 import Reamber.Generated.OsuTables
 
 namespace Reamber.Osu
@@ -520,28 +521,110 @@ theorem denote_writeText (R : Render) (c : Chart)
   exact denote_eq_read (writtenSkeleton R c) (writtenSkeleton_wf R c hhits hholds hb hs hsf hbq hbc) _
     (strip_lines_written R c hhits hholds hb hs hnl) _ hrw (by show 1 ≤ pyTrunc c.md.circleSize; omega)
 
-/-- `denote (write (read t)) = quantize (denote t)` — PARTIAL.
-Full statement: for every dialect text `t` with `denote t = .ok c` (key count 1..256) and every renderer satisfying
-the read-back assumptions: `read t = .ok c` and `denoteText (writeText R c) = .ok (quantize R.uni c)`.
-Proved: exactly that, with the write-side hypotheses on `c` stated explicitly instead of derived from "`c` was read
-from a dialect text".  What a full proof would still have to derive from `denote t = .ok c` and `s.WF`:
-columns inside the key count (clamp of `xToCol`), hitsound / sample file names free of `,` `:` and trailing blanks
-(they are split fields of trimmed lines), non-zero bpm / SV (`60000 / code`, `-100 / code`), integral
-AudioLeadIn / BeatDivisor / GridSize (read by `int()`), background name free of `"` `,` (`BgOk`).
-The renderer assumptions (`ReprOk`, `NumOk`, no line break in a header token) are parameters of the model and stay
-hypotheses in any case.  Both whole-file theorems (`read_text_iff_denote`, `read_writeText`), the by-the-book reading
-of a written file (`denote_writeText`) and all line / section theorems are proved without such gaps. -/
+/-- the renderer assumptions for the numbers of the header (parameters of the model) -/
+def MetaRenderOk (R : Render) (m : Meta) : Prop :=
+  readFloat (R.repr m.stackLeniency) = .ok m.stackLeniency ∧ NumOk R m.distanceSpacing ∧ NumOk R m.timelineZoom ∧
+  NumOk R m.hpDrainRate ∧ NumOk R m.circleSize ∧ NumOk R m.overallDifficulty ∧ NumOk R m.approachRate ∧
+  NumOk R m.sliderMultiplier ∧ NumOk R m.sliderTickRate
+
+/-- `denote (write (read t)) = quantize (denote t)` — PARTIAL (one chart-side hypothesis left).
+For every dialect text `t` (skeleton `s`, `s.WF`) that the format reads as `c` with a key count 1..256:
+`read t = .ok c` and `denoteText (writeText R c) = .ok (quantize R.uni c)`.
+DERIVED here from "`c` was read from a dialect text" (no longer hypotheses): columns inside the key count (clamp),
+hitsound and sample file names free of `,` `:` (they are pieces of a split), bpm ≠ 0 and SV ≠ 0 (`60000 / code`,
+`-100 / code` with `code ≠ 0`), AudioLeadIn / BeatDivisor / GridSize integral (read by `int()`, invariant of the
+key/value loop), background name free of `"` `,` (`BgOk`).
+STILL A HYPOTHESIS, although true of every chart read from trimmed `"\n"`-split lines: hitsound file names contain no
+line break and do not end in a blank (`TailOk`) — the missing piece is "the last field of a trimmed line does not end
+in white space".  The renderer assumptions (`ReprOk`, `MetaRenderOk`, no line break in a header token) are parameters
+of the model and remain hypotheses in any case. -/
 theorem denote_write_read_partial (s : Skeleton) (hwf : s.WF) (lines0 : List Str) (hl : lines0.map strip = s.lines)
     (c : Chart) (hden : denote lines0 = .ok c) (R : Render)
-    (hk : 0 < pyTrunc c.md.circleSize) (hk' : pyTrunc c.md.circleSize ≤ 256)
-    (hhits : ∀ h ∈ c.hits, ObjOk2 (pyTrunc c.md.circleSize) (.hit h))
-    (hholds : ∀ h ∈ c.holds, ObjOk2 (pyTrunc c.md.circleSize) (.hold h))
-    (hb : ∀ b ∈ c.bpms, BpmOk2 R b) (hs : ∀ b ∈ c.svs, SvOk2 R b)
-    (hm : MetaOk R c.md) (hnl : ∀ tl ∈ writeMeta c.md, ∀ t ∈ tl, '\n' ∉ R.tok t)
-    (hbq : '"' ∉ c.md.backgroundFileName) (hbc : ',' ∉ c.md.backgroundFileName) :
-    read lines0 = .ok c ∧ denoteText (writeText R c) = .ok (quantize R.uni c) :=
-  ⟨read_eq_denote s hwf lines0 hl c hden (by omega),
-   denote_writeText R c hk hk' hhits hholds hb hs hm hnl hbq hbc⟩
+    (hk : 1 ≤ pyTrunc c.md.circleSize) (hk' : pyTrunc c.md.circleSize ≤ 256)
+    (htail : (∀ h ∈ c.hits, TailOk h.file) ∧ (∀ h ∈ c.holds, TailOk h.file))
+    (hRb : ∀ b ∈ c.bpms, ReprOk R b.offset ∧ ReprOk R (bpmCode b.bpm))
+    (hRs : ∀ b ∈ c.svs, ReprOk R b.offset ∧ ReprOk R (svCode b.multiplier))
+    (hRm : MetaRenderOk R c.md) (hnl : ∀ tl ∈ writeMeta c.md, ∀ t ∈ tl, '\n' ∉ R.tok t) :
+    read lines0 = .ok c ∧ denoteText (writeText R c) = .ok (quantize R.uni c) := by
+  have hread := read_eq_denote s hwf lines0 hl c hden hk
+  refine ⟨hread, ?_⟩
+  -- the components of `c`
+  rw [s.denote_eq hwf lines0 hl] at hden
+  cases h0 : denoteKv {} (((s.G ++ s.E) ++ s.M) ++ s.D) with
+  | error e => rw [h0] at hden; simp at hden
+  | ok m0 =>
+    rw [h0] at hden; simp only [] at hden
+    cases hss : mapE readSample (s.S.filter (startsWith pSample)) with
+    | error e => rw [hss] at hden; simp at hden
+    | ok ss =>
+      rw [hss] at hden; simp only [] at hden
+      cases htp : filterMapE denoteTiming (s.T.filter nb) with
+      | error e => rw [htp] at hden; simp at hden
+      | ok tps =>
+        rw [htp] at hden; simp only [] at hden
+        cases hob : filterMapE (denoteObj (pyTrunc m0.circleSize)) (s.O.filter nb) with
+        | error e => rw [hob] at hden; simp at hden
+        | ok objs =>
+          rw [hob] at hden
+          simp only [Except.ok.injEq] at hden
+          subst hden
+          have hk0 : 1 ≤ pyTrunc m0.circleSize := hk
+          -- objects
+          have hobj : ∀ o ∈ objs, ObjOk (pyTrunc m0.circleSize) o := by
+            intro o ho
+            obtain ⟨l, _, hl'⟩ := filterMapE_mem _ _ _ hob o ho
+            exact (denoteObj_facts _ hk0 l o hl').1
+          have hhits : ∀ h ∈ objs.filterMap objHit, ObjOk2 (pyTrunc m0.circleSize) (.hit h) := by
+            intro h hh
+            obtain ⟨o, ho, hoh⟩ := List.mem_filterMap.mp hh
+            cases o with
+            | hit x =>
+              simp only [objHit, Option.some.injEq] at hoh; subst hoh
+              have := hobj _ ho
+              exact ⟨this.1, this.2.1, this.2.2.1, this.2.2.2, htail.1 _ hh⟩
+            | hold x => simp [objHit] at hoh
+          have hholds : ∀ h ∈ objs.filterMap objHold, ObjOk2 (pyTrunc m0.circleSize) (.hold h) := by
+            intro h hh
+            obtain ⟨o, ho, hoh⟩ := List.mem_filterMap.mp hh
+            cases o with
+            | hit x => simp [objHold] at hoh
+            | hold x =>
+              simp only [objHold, Option.some.injEq] at hoh; subst hoh
+              have := hobj _ ho
+              exact ⟨this.1, this.2.1, this.2.2.1, this.2.2.2, htail.2 _ hh⟩
+          -- timing points
+          have hb : ∀ b ∈ tps.filterMap tpBpm, BpmOk2 R b := by
+            intro b hbm
+            obtain ⟨tp, htp', hbb⟩ := List.mem_filterMap.mp hbm
+            cases tp with
+            | bpm x =>
+              simp only [tpBpm, Option.some.injEq] at hbb; subst hbb
+              obtain ⟨l, _, hl'⟩ := filterMapE_mem _ _ _ htp _ htp'
+              have := denoteTiming_facts l _ hl'
+              exact ⟨this, (hRb _ hbm).1, (hRb _ hbm).2⟩
+            | sv x => simp [tpBpm] at hbb
+          have hs : ∀ b ∈ tps.filterMap tpSv, SvOk2 R b := by
+            intro b hbm
+            obtain ⟨tp, htp', hbb⟩ := List.mem_filterMap.mp hbm
+            cases tp with
+            | bpm x => simp [tpSv] at hbb
+            | sv x =>
+              simp only [tpSv, Option.some.injEq] at hbb; subst hbb
+              obtain ⟨l, _, hl'⟩ := filterMapE_mem _ _ _ htp _ htp'
+              have := denoteTiming_facts l _ hl'
+              exact ⟨this, (hRs _ hbm).1, (hRs _ hbm).2⟩
+          -- metadata
+          obtain ⟨i1, i2, i3⟩ := denoteKv_intMeta {} m0 _ intMeta_default h0
+          have hsf : ∀ x ∈ ss, ',' ∉ x.file := by
+            intro x hx
+            obtain ⟨l, _, hl'⟩ := mapE_mem _ _ _ hss x hx
+            exact readSample_file l x hl'
+          obtain ⟨r1, r2, r3, r4, r5, r6, r7, r8, r9⟩ := hRm
+          have hm : MetaOk R { m0 with samples := ss, backgroundFileName := s.bgName } := by
+            unfold MetaOk
+            exact ⟨i1, r1, r2, i2, i3, r3, r4, r5, r6, r7, r8, r9, hsf⟩
+          obtain ⟨tail, _, hq, hc, _, _⟩ := hwf.bg
+          exact denote_writeText R _ (by show 0 < pyTrunc m0.circleSize; omega) hk' hhits hholds hb hs hm hnl hq hc
 
 /-- non-vacuity: the 7K demo chart written and read by the book -/
 example : denoteText (writeText intRender demoChart) = .ok (quantize id demoChart) :=
